@@ -66,7 +66,21 @@ def build(workdir, fun_plan, axcut_plan=None, with_corpus=True, emit="fun,core,c
     art = os.path.join(workdir, "art")
     sccv("pipeline", lp, art, emit)
     index = {c["name"]: c for c in json.load(open(os.path.join(art, "index.json")))}
+    for n, e in index.items():   # corpus programs: argument tuples of the right arity
+        if meta.get(n, {}).get("origin") == "corpus" and e["kind"] == "fun":
+            k = main_arity(e, art, n)
+            args[n] = [a for a in args[n] if len(a) == k] or [[2] * k]
     return art, index, args, meta
+
+
+def main_arity(entry, art, name):
+    p = os.path.join(art, name + ".fun.json")
+    if os.path.exists(p):
+        q = json.load(open(p))
+        for d in q["defs"]:
+            if d["name"] == "main":
+                return len(d["params"])
+    return entry.get("nargs", 0)
 
 
 def stage_ok(entry, stage):
@@ -99,14 +113,51 @@ def run_walker(art, workdir, names, stage):
     return bad, r
 
 
+def add_adversarial_labels(workdir, art, index, args, meta, limit):
+    """Second compilation of a sample of programs extended by user definitions whose names are exactly the labels the
+    compiler generated for the first compilation (share_<f>_<n>, lift_<f>__<id>), once appended and once prepended."""
+    import re
+    lst = []
+    for n in list(index):
+        src = meta.get(n, {}).get("src")
+        p = os.path.join(art, n + ".core.json")
+        if not src or not os.path.exists(p) or len(lst) >= 2 * limit:
+            continue
+        if meta[n].get("twin") or meta[n].get("origin") == "corpus":
+            continue   # programs with shadowing are subject to the known capture defect; use their twins and plain programs
+        user = set(re.findall(r"def\s+([a-z][A-Za-z0-9_]*)\s*\(", src))
+        gen = [d["name"] for d in json.load(open(p))["defs"]]
+        gen = [re.sub(r"_0$", "", g) for g in gen]   # Core keys are <name>_<id>; user-visible names have id 0
+        gen = [g for g in gen if g not in user and re.match(r"^[a-z][A-Za-z0-9_]*$", g)]
+        if not gen:
+            continue
+        g = gen[0]
+        extra = "def %s(): i64 { 7 }\n" % g
+        for tag, text in (("advA", src + extra), ("advP", extra + src)):
+            name = "%s_%s" % (n, tag)
+            lst.append({"name": name, "kind": "fun", "src": text})
+            args[name] = args[n]
+            meta[name] = {"origin": "adversarial-label", "src": text}
+    if not lst:
+        return
+    lp = os.path.join(workdir, "adv.json")
+    json.dump(lst, open(lp, "w"))
+    sccv("pipeline", lp, art, "fun,core,coreuniq,corefs,axcut,axcutlin")
+    extra_index = json.load(open(os.path.join(art, "index.json")))
+    for c in extra_index:
+        index[c["name"]] = c
+
+
 def stage_check(pid, tier, pairs, walk_stages, fun_plan, axcut_plan=None, maxsteps=6000, own_hyp=None, timeout=1500,
-                level="translation_validation", rule="", capture_twins=False, with_corpus=True):
+                level="translation_validation", rule="", capture_twins=False, with_corpus=True, adversarial_labels=0):
     """pairs: list of (stage_a, stage_b) compared observationally; walk_stages: stages whose typing the property claims;
     own_hyp: stage whose well-typedness is the hypothesis (cases failing it are excluded and blamed upstream)."""
     t0 = time.time()
     build_harness()
     work = fresh_dir(WORK, pid)
     art, index, args, meta = build(work, fun_plan, axcut_plan, with_corpus=with_corpus)
+    if adversarial_labels:
+        add_adversarial_labels(work, art, index, args, meta, adversarial_labels)
     stats = collections.Counter()
     viols = []
     states = trans = 0
